@@ -216,6 +216,8 @@ def run(spec, seed, mp):
                     log.append(("swrite", sim.now(), self.local, self.remote, bytes(data)))
                     if self.remote == SERVER:
                         genuine_c2s.append(bytes(data))
+                else:
+                    log.append(("swrite3", sim.now(), self.local, self.remote, bytes(data)))      # a write from / to the third party (L1 stream replay)
                 if not mp["aggregate"] or THIRD[0] in (self.local[0], self.remote[0]):
                     log.append(("stx", sim.now(), self.local, self.remote, bytes(data)))
                     sim.loop.call_soon(self.peer.inbox.put, bytes(data))
@@ -243,6 +245,7 @@ def run(spec, seed, mp):
             a = CoStream(net, addr_a, addr_b)
             b = CoStream(net, addr_b, addr_a)
             a.peer, b.peer = b, a
+            log.append(("sopen", sim.now(), addr_a, addr_b))
             return a, b
         net.stream_pair = stream_pair
 
